@@ -53,7 +53,15 @@ class Condition {
 
         wait_token_ = sch_.getToken();
         sch_.wait();
-        conds_.clear();
+
+        //! 如果是被 post() 唤醒的，那么 post() 已经清理了 wait_token_ 与 conds_。
+        //! 在本协程恢复执行之前，可能已有别的协程 add() 了新的条件并开始 wait() 了，
+        //! 这时不能动 wait_token_ 与 conds_，否则新的等待者就再也等不到它的条件了。
+        //! 如果不是被 post() 唤醒的（被取消，或被其它途径 resume 的），则撤销本次等待
+        if (wait_token_.equal(sch_.getToken())) {
+            wait_token_.reset();
+            conds_.clear();
+        }
 
         return !sch_.isCanceled();
     }
